@@ -554,6 +554,78 @@ def check(run):
     for cs in tie_cases:
         i = impl.add(G.impl_line(cs)); m = mod.add(G.model_line(cs))
         jobs.append(("tie", cs, i, m))
+    # pair list over steps AND run boundaries: runs of one session starting at arbitrary absolute steps, coordinates replaced
+    # between the runs (far apart in one run, in contact in the next), list frequency 2..5
+    for k in range(8 * scale):
+        c = gen_until(r, "coordNum", generic=(k % 2 == 1), dup=0.0, cellmode=False)
+        if c is None:
+            continue
+        pr = c["params"]; pr["tol"] = r.choice([0.001, 0.0078125, 0.05]); pr.pop("center", None)
+        pr["plfreq"] = r.choice([2, 3, 5])
+        g2ids = set(G.dedup(c["groups"][1]))
+        def far(atoms, off):
+            return [[a[0], a[1], a[2] + (off if (i + 1) in g2ids else 0.0), a[3], a[4]] for i, a in enumerate(atoms)]
+        def jiggle(atoms, amp):
+            return [[a[0], a[1]] + [x + r.gauss(0, amp) for x in a[2:5]] for a in atoms]
+        runs = []; starts = []
+        nruns = r.randint(2, 3)
+        ok = True
+        for j in range(nruns):
+            base = far(c["atoms"], 40.0) if (j % 2 == 0) == (k % 2 == 0) else c["atoms"]
+            frames = []
+            for f in range(r.randint(2, 2 * pr["plfreq"] + 1)):
+                for _ in range(30):
+                    fr = jiggle(base, 0.2) if f else [list(a) for a in base]
+                    if well_conditioned(dict(c, atoms=fr)):
+                        break
+                else:
+                    ok = False
+                frames.append(fr)
+            runs.append(frames)
+            starts.append(0 if j == 0 else r.choice([1, 2, 3, 4, 7, 11, 13, 10, 6]))
+        if not ok:
+            continue
+        idx = []; fresh = []
+        for j, frames in enumerate(runs):
+            for f, fr in enumerate(frames):
+                if j == 0 and f == 0:
+                    idx.append(impl.add(G.impl_line([c], atoms=fr)))
+                else:
+                    if f == 0:
+                        impl.add("R %d" % starts[j])
+                    idx.append(impl.add(G.pos_line(fr)))
+        for j, frames in enumerate(runs):          # the same coordinates evaluated from scratch (always a rebuild)
+            fresh.append(impl.add(G.impl_line([c], atoms=frames[0])))
+        t0 = G.model_tokens(c); gpos = t0.index("G")
+        t = ["coordNumRuns"] + t0[1:6] + ["%d" % pr["plfreq"]] + t0[6:gpos - 1] + ["%d" % len(runs)]
+        for frames in runs:
+            t.append("%d" % len(frames))
+            for fr in frames:
+                tf = G.model_tokens(dict(c, atoms=fr)); t += tf[tf.index("G"):]
+        m = mod.add(" ".join(t))
+        jobs.append(("plruns", {"case": c, "runs": runs, "starts": starts, "idx": idx, "fresh": fresh}, None, m))
+    # selfCoordNum with a pair list (no model of its list): first step of every run against a fresh evaluation
+    for k in range(4 * scale):
+        c = gen_until(r, "selfCoordNum", generic=(k % 2 == 1), dup=0.0, cellmode=False)
+        if c is None:
+            continue
+        pr = c["params"]; pr["tol"] = r.choice([0.001, 0.0078125, 0.05]); pr["plfreq"] = r.choice([2, 3, 5])
+        spread = [[a[0], a[1]] + [10.0 * x for x in a[2:5]] for a in c["atoms"]]
+        runs = [[spread, spread], [c["atoms"], c["atoms"]]] if k % 2 == 0 else [[c["atoms"], c["atoms"]], [spread, spread], [c["atoms"]]]
+        if not all(well_conditioned(dict(c, atoms=fr)) for frames in runs for fr in frames):
+            continue
+        starts = [0] + [r.choice([1, 2, 3, 4, 7, 11, 13]) for _ in runs[1:]]
+        idx = []
+        for j, frames in enumerate(runs):
+            for f, fr in enumerate(frames):
+                if j == 0 and f == 0:
+                    idx.append(impl.add(G.impl_line([c], atoms=fr)))
+                else:
+                    if f == 0:
+                        impl.add("R %d" % starts[j])
+                    idx.append(impl.add(G.pos_line(fr)))
+        fresh = [impl.add(G.impl_line([c], atoms=frames[0])) for frames in runs]
+        jobs.append(("plruns", {"case": c, "runs": runs, "starts": starts, "idx": idx, "fresh": fresh}, None, None))
     # rmsd with atomPermutation (symmetry-adapted RMSD)
     for k in range(8 * scale):
         c = gen_ref_case(r, "rmsd")
@@ -703,6 +775,30 @@ def check(run):
                                   obj["listing"], obj["listing"][0], obj["entries"][obj["listing"][0]], a[:3] if a else iout[obj["i"][1]][:80]), rep)
             if a is not None and b is not None and a != b:
                 run.mismatch("value:load_coords", impl.lines[obj["i"][1]], iout[obj["i"][1]][:200], mout[obj["m"][1]][:200])
+        elif kind == "plruns":
+            c = obj["case"]; f = c["params"]["plfreq"]
+            run.count("plruns/" + case_key(c) + "/%s" % obj["starts"], True)
+            run.dist("tie:coordNum:pairlist:runs")
+            vals = [parse_impl(iout[k]) for k in obj["idx"]]
+            b = parse_model(mout[m]) if m is not None else None
+            lo = min(obj["idx"]); hi = max(obj["idx"])
+            rep = replay_obj("lines", impl.lines[lo:hi + 1], {"model_lines": [mod.lines[m]] if m is not None else [], "starts": obj["starts"], "pairListFrequency": f})
+            if any(v is None or len(v) != 1 for v in vals):
+                run.violation("value:coordNum:pairlist-error", "coordNum with a pair list fails in a session of several runs: %s" % [iout[k][:40] for k in obj["idx"]][:6], rep)
+            else:
+                a = [v[0] for v in vals]
+                # oracle on the implementation alone: the first step of every run is a rebuild, i.e. the value of a fresh evaluation
+                pos = 0
+                for j, frames in enumerate(obj["runs"]):
+                    fv = parse_impl(iout[obj["fresh"][j]])
+                    if fv is None or not close(a[pos], fv[0], 1e-9):
+                        run.violation("value:%s:pairlist:first-step-of-run" % c["comp"],
+                                      c["comp"] + " (tolerance %g, pairListFrequency %d) at the first step of run %d, which starts at absolute step %d: %r, but the same coordinates evaluated from scratch give %r (stale pair list of the previous run)" % (
+                                          c["params"]["tol"], f, j + 1, obj["starts"][j], a[pos], fv and fv[0]), rep)
+                        break
+                    pos += len(frames)
+                if m is not None and (b is None or not vclose(a, b, TOL)):
+                    run.mismatch("value:coordNum:pairlist:runs", impl.lines[lo][:200], a, b)
         elif kind == "pairlist":
             a = parse_impl(iout[i]); b = parse_model(mout[m]); a0 = parse_impl(iout[obj["i"][0]])
             run.count("pairlist/" + case_key(obj["case"]) + "/%g" % obj["amp"], True)
